@@ -49,8 +49,14 @@ def delItem (d : CIDict V) (k : Str) : CIDict V × Bool :=
 def contains (d : CIDict V) (k : Str) : Bool := dhas d.dict (lower k)
 
 /-- `items()` of the mix-in: `[(key, self[key]) for key in self]`; `none` = `KeyError`. -/
-def items (d : CIDict V) : Option (List (Str × V)) :=
-  (iter d).mapM fun k => (getItem d k).map fun v => (k, v)
+def itemsAux (d : CIDict V) : List Str → Option (List (Str × V))
+  | [] => some []
+  | k :: r =>
+    match getItem d k with
+    | none => none
+    | some v => (itemsAux d r).map ((k, v) :: ·)
+
+def items (d : CIDict V) : Option (List (Str × V)) := itemsAux d (iter d)
 
 /-- `Mapping.get(key, default)`. -/
 def getD (d : CIDict V) (k : Str) (dflt : V) : V := (getItem d k).getD dflt
@@ -198,6 +204,32 @@ def lowered (s : CISet) : CISet := ofList s.set
 def remove (s : CISet) (k : Str) : CISet × Bool :=
   if contains s k then (discard s k, true) else (s, false)
 
+end CISet
+
+/-- Set operations as data. -/
+inductive SOp where
+  | add (k : Str) | discard (k : Str) | remove (k : Str) | contains (k : Str) | canonical (k : Str) | lower
+deriving Repr
+
+inductive SRes where
+  | unit | keyError | bool (b : Bool) | str (s : Str)
+deriving Repr, DecidableEq
+
+namespace CISet
+def step (s : CISet) : SOp → CISet × SRes
+  | .add k => (s.add k, .unit)
+  | .discard k => (s.discard k, .unit)
+  | .remove k => let r := s.remove k; (r.1, if r.2 then .unit else .keyError)
+  | .contains k => (s, .bool (s.contains k))
+  | .canonical k => (s, match s.canonical k with | some x => .str x | none => .keyError)
+  | .lower => (s.lowered, .unit)
+
+def run (s : CISet) : List SOp → CISet × List SRes
+  | [] => (s, [])
+  | op :: ops =>
+    let r := step s op
+    let rest := run r.1 ops
+    (rest.1, r.2 :: rest.2)
 end CISet
 
 end Pybtex
